@@ -261,7 +261,10 @@ func drawClientMsg(t *rapid.T, label string, tg msgTargets, authors []string, no
 			nt = pick(t, label+"ntags", tg.maxtags, 3)
 			nc = pick(t, label+"ncontent", tg.maxcontent, 6)
 			// created_at offset relative to now, at least 5 s away from every boundary
-			switch rapid.IntRange(0, 3).Draw(t, label+"tsmode") {
+			switch rapid.IntRange(0, 4).Draw(t, label+"tsmode") {
+			case 4:
+				// far away from every boundary: centuries ahead, the epoch, milliseconds mistaken for seconds
+				off = rapid.SampledFrom([]int64{9223372037, 18446744074, 1<<40 - now, 1<<62 - now, -now, now * 999, -(1 << 40)}).Draw(t, label+"far")
 			case 0:
 				off = 0
 			case 1:
